@@ -609,40 +609,625 @@ def run_oracles(ctx, pid, cases, oracle, desc, dicts_per_expr, extra=()):
     return violations, checks, distinct, dist, tagged
 
 
+# ----------------------------------------------------------------------------- live objects outside the core language
+#
+# Dataset classes (below), option namespaces (props/c11.py) and graphs changed by a public mutator after
+# they were first asked are evaluatables the scenario language of core.py cannot build.  They are built
+# here from scenario pieces (members / implementations are ordinary scenario expressions built by
+# core.Builder) and observed with the same canonical lines as core.run_impl; the event part keeps the
+# calls of user functions only (c<fid>(...)).
+
+def ask_obj(w, obj, m, po, off=False, value=None):
+    """one method on a live object -> observation line.  value: how the result of evaluate is rendered"""
+    import contextlib
+    import labrea.cache
+    w.calls.clear()
+    try:
+        with (labrea.cache.disabled() if off else contextlib.nullcontext()):
+            if m == "evaluate":
+                raw = obj.evaluate(po)
+                r = "ok:" + core.show(value(raw) if value is not None else core.force(raw))
+            elif m == "validate":
+                obj.validate(po)
+                r = "ok:()"
+            elif m == "keys":
+                r = "ok:" + core.show_keys(obj.keys(po))
+            else:
+                r = "ok:" + core.show_keys(obj.explain(po))
+    except RecursionError:
+        r = "err:fuel:F"
+    except Exception as exc:  # noqa
+        c, ee = core.classify(exc)
+        r = f"err:{c}:{'T' if ee else 'F'}"
+    return core.canon_names(r + "|" + " ".join(t for t in w.calls if CALL.match(t)))
+
+
+def calls_only(line):
+    """an observation line (of either side) with the event part reduced to the calls of user functions"""
+    res, ev = cp.split(line)
+    return res + "|" + " ".join(t for t in ev if CALL.match(t))
+
+
+def live_correspondence(ctx, name, items, where):
+    """items: [(impl lines, model scenario, description)]: the model runs the scenario, the lines are compared
+    with coreprop's tolerant comparison on results + calls of user functions -> (ops compared, mismatches)"""
+    if not items:
+        return 0, []
+    outs = ctx.coq_eval(name, cp.REQ, "", [core.coq_scenario(s) for _, s, _ in items], shard=30)
+    mism, n = [], 0
+    for (il, s, what), out in zip(items, outs):
+        ml = out.split(" ## ")
+        multi = cp._multi_ref(s["exprs"]) or cp._multi_ref(s["env"]) or cp._multi_ref([op[4] for op in s["ops"]])
+        if len(ml) != len(il):
+            mism.append(dict(where=where + " (line count)", scenario_repr=what))
+            continue
+        for oi, (op, a, b) in enumerate(zip(s["ops"], il, ml)):
+            n += 1
+            if not cp.same(calls_only(a), calls_only(cp.strip_ghost(b)), multi):
+                mism.append(dict(where=where, op_index=oi, op=repr(op), impl=a, model=calls_only(cp.strip_ghost(b)), scenario_repr=what))
+                break
+            if "unmod" in cp.split(b)[0]:
+                break
+    return n, mism
+
+
+SYNTAX_FREE = dict(ftable={}, env={}, exprs=[("value", ("j", 0))], ops=[])    # a total, zone-free stand-in for the syntax tree
+
+
+# ----------------------------------------------------------------------------- dataset classes
+#
+# A class scenario is an ordinary scenario whose expressions are member expressions (props/c03.py ClassGen:
+# zone-free, total), plus `cls`: a linear chain of class levels, root first, the LAST level being the class
+# that is asked.  level = dict(kind, members=[(name, expr index, annotated, raw)]):
+#   kind "plain"  an ordinary Python class                      "dc"   decorated with @datasetclass
+#        "sub"    a bare `class L(previous level)` statement (a dataset class through the metaclass when the
+#                 previous level is one)
+# and optionally `mixin` = (level index, members): a second, plain base class of that level.
+# annotated: declared `name: T = value` (else `name = value`); raw: a constant handed over as a plain Python
+# value instead of a labrea Value.  What the class stands for is computed HERE from the scenario alone
+# (class_members): per name the most derived declaration (the mixin is last in the MRO), names starting with
+# "__" are not members, in dir() order; the class must then behave, for validate / keys / explain / evaluate,
+# like the collection of those members (class_eff: the scenario the Coq model runs).
+
+def class_members(scn):
+    c = scn["cls"]
+    eff = {}
+    if c.get("mixin"):
+        for m in c["mixin"][1]:
+            eff[m[0]] = m[1]
+    for lv in c["levels"]:
+        for m in lv["members"]:
+            eff[m[0]] = m[1]
+    return [(nm, eff[nm]) for nm in sorted(eff) if not nm.startswith("__")]
+
+
+def class_eff(scn):
+    return dict(ftable=scn["ftable"], env=scn["env"], exprs=[("list", [scn["exprs"][i] for _, i in class_members(scn)])], ops=[])
+
+
+def build_chain(scn):
+    """-> (the class of the last level, World, rendering of an instance)"""
+    import types
+    import labrea
+    from labrea.types import Evaluatable
+    _, objs, w, b = core.run_impl(dict(scn, ops=[]), want_objects=True)
+
+    def body(ms):
+        ns = {}
+        for nm, i, ann, raw in ms:
+            e = scn["exprs"][i]
+            ns[nm] = core.py_value(e[1]) if (raw and e[0] == "value") else objs[i]
+        ns["__annotations__"] = {nm: object for nm, i, ann, raw in ms if ann}
+        return ns
+    c = scn["cls"]
+    cur = None
+    for li, lv in enumerate(c["levels"]):
+        bases = () if cur is None else (cur,)
+        if c.get("mixin") and c["mixin"][0] == li:
+            bases += (type("Mixin", (), body(c["mixin"][1])),)
+        k = types.new_class(f"L{li}", bases, exec_body=lambda ns, ms=lv["members"]: ns.update(body(ms)))
+        cur = labrea.datasetclass(k) if lv["kind"] == "dc" else k
+    names = [nm for nm, _ in class_members(scn)]
+
+    def value(inst):
+        vals = [getattr(inst, nm) for nm in names]
+        return [("<member not evaluated>" if isinstance(v, Evaluatable) else core.force(v)) for v in vals]
+    return cur, w, value
+
+
+def class_quad(scn, o, first):
+    """the quadruple of the class: cold = a freshly built class per method; warm = one class, evaluate(first) first"""
+    po = core.py_json(o)
+    if first is None:
+        q = {}
+        for m in METHODS:
+            cls, w, value = build_chain(scn)
+            q[m] = ask_obj(w, cls, m, po, value=value)
+        return q
+    off = isinstance(first, tuple)
+    cls, w, value = build_chain(scn)
+    q = dict(first=ask_obj(w, cls, "evaluate", core.py_json(first[1] if off else first), value=value))
+    for m in METHODS:
+        q[m] = ask_obj(w, cls, m, po, off=off, value=value)
+    return q
+
+
+def class_scenario(rng):
+    """-> (class scenario, pool of dictionaries): 1-3 levels, members spread over the levels and an optional mixin,
+    some re-declared at a more derived level; the pool holds a dictionary with every leaf key and, for every
+    leaf key a member reads, the same dictionary without it (so a key needed ONLY by an inherited, an
+    unannotated or an overridden member is missing once)"""
+    from props import c03
+    g = c03.ClassGen(rng)
+    nlev = rng.choice([1, 2, 2, 2, 3])
+    levels = [dict(kind=(rng.choice(["plain", "dc"]) if li == 0 else rng.choice(["dc", "dc", "sub"])), members=[]) for li in range(nlev)]
+    if not any(lv["kind"] == "dc" for lv in levels):
+        levels[-1]["kind"] = "dc"
+    mixin = (rng.randrange(nlev), []) if rng.random() < 0.3 else None
+    exprs = []
+
+    def member(nm):
+        e = g.member()
+        exprs.append(e)
+        return (nm, len(exprs) - 1, rng.random() < 0.7, e[0] == "value" and rng.random() < 0.5)
+    slots = [lv["members"] for lv in levels] + ([mixin[1]] if mixin else [])
+    where = {}
+    for nm in rng.sample(c03.MEMBER_NAMES, rng.randint(2, 6)):
+        si = rng.randrange(len(slots))
+        slots[si].append(member(nm))
+        where[nm] = si
+    for nm, si in list(where.items()):                  # re-declared at a more derived level (the mixin is the least derived)
+        above = list(range(nlev)) if si == nlev else list(range(si + 1, nlev))
+        if above and rng.random() < 0.25:
+            levels[rng.choice(above)]["members"].append(member(nm))
+    scn = dict(ftable=dict(g.ftable), env=dict(g.env), exprs=exprs, ops=[], cls=dict(levels=levels, mixin=mixin))
+    full = {gen.LST: [gen.rand_scalar(rng), gen.rand_scalar(rng)]}
+    for lk in g.LEAVES[:6]:
+        full = c03.put_path(full, lk, rng.choice([0, 1, 2, 5, lit("a"), lit("b"), True, None]))
+    read = set(option_keys(scn, ("list", exprs)))
+    pool = [full] + [c03.del_path(full, lk) for lk in g.LEAVES[:6] if lk in read] + [{}]
+    pool += rng.sample(g.dict_pool(), 2)
+    return scn, pool
+
+
+def class_failures(scn, o, first, oracle):
+    """-> (failures of the class that the collection of its members does not show, failures the members show too,
+    the quadruple).  The second list is the members' own business (same attribution as any expression)."""
+    eff = class_eff(scn)
+    q = class_quad(scn, o, first)
+    fails = oracle(eff, 0, o, q, first)
+    if not fails:
+        return [], [], q
+    ql = quad(eff, 0, o, first)
+    lk = {}
+    for kind, detail, cands in oracle(eff, 0, o, ql, first):
+        lk.setdefault(kind, (detail, cands))
+    own = [(k, d) for k, d, c in fails if k not in lk]
+    shared = [(eff, 0, o, first, k) + lk[k] for k in {k for k, d, c in fails if k in lk}]
+    return own, shared, q
+
+
+def class_stream(ctx, pid, n, oracle, desc):
+    """dataset classes: the property's oracle on the class (cold for every dictionary of the pool, warm modes for
+    the first three) and the correspondence class vs Model/Eval.v on the collection of its effective members
+    -> dict(raw, violations, checks, ops, mismatches, patterns)"""
+    rng = ctx.rng
+    raw, viol, checks, dist, items = [], [], 0, {}, []
+    for _ in range(n):
+        scn, pool = class_scenario(rng)
+        for j, o in enumerate(pool):
+            for first in (modes(pool, j) if j < 3 else [None]):
+                own, shared, q = class_failures(scn, o, first, oracle)
+                checks += 1
+                tag = "".join("1" if ok(q[m]) else "0" for m in METHODS)
+                dist[tag] = dist.get(tag, 0) + 1
+                raw += shared
+                for kind, detail in own:
+                    viol.append(dict(desc="dataset class: " + desc[kind], family="class", oracle=kind, mode=mode_name(o, first),
+                                     options=repr(o), first=None if first is None else repr(first), detail=detail, finding=None,
+                                     observed={m: res_of(q[m]) for m in METHODS},
+                                     effective_members=[(nm, repr(scn["exprs"][i])[:200]) for nm, i in class_members(scn)],
+                                     scenario_repr=cp.dump_scn(scn)))
+        ops = []                                          # one long-lived class: ask, evaluate, ask again
+        for o in rng.sample(pool, 2):
+            ops += [(m, 0, False, False, o) for m in ("validate", "keys", "explain", "evaluate", "validate", "keys", "explain")]
+        cls, w, value = build_chain(scn)
+        il = [ask_obj(w, cls, op[0], core.py_json(op[4]), value=value) for op in ops]
+        items.append((il, dict(class_eff(scn), ops=ops), cp.dump_scn(scn)))
+    nops, mism = live_correspondence(ctx, f"Classes_{pid}", items, "dataset class vs Model/Eval.v on the collection of its effective members")
+    return dict(raw=raw, violations=viol, checks=checks, ops=nops, mismatches=mism, patterns=dist, scenarios=n)
+
+
+def replay_class(ctx, payload, oracle):
+    scn = cp.load_scn(payload["scenario_repr"])
+    o = eval(payload["options"], {"S": S})
+    first = None if payload.get("first") is None else eval(payload["first"], {"S": S})
+    own, shared, q = class_failures(scn, o, first, oracle)
+    return bool(own), dict(oracle_failures=own, failures_of_the_members_themselves=[(x[4], x[5]) for x in shared], observed=q,
+                           effective_members=[(nm, repr(scn["exprs"][i])) for nm, i in class_members(scn)], levels=scn["cls"])
+
+
+# ----------------------------------------------------------------------------- option namespaces under the C10 oracle
+#
+# Generator, builder and the reading of a namespace as the collection of its effective options live in
+# props/c11.py (imported lazily: c11 imports this module).  Here validate / keys / evaluate of the namespace, of
+# every nested namespace and of members reached by attribute access are asked cold (a fresh namespace), warm
+# (evaluate of the same / a neighbouring dictionary first, same object) and warmed-then-cache-disabled.
+# Oracle only: Namespace.evaluate returns the populated section, which the model does not have.
+#
+# Recorded finding NS1 (findings/C10.json): Namespace._populate skips members that are not Option / Namespace
+# instances, so `Option.auto(...) >> f` members are not evaluated (and a namespace made of such members only
+# raises a raw KeyError).  A failure is attributed to NS1 only inside its zone, decided causally: the asked
+# object is a namespace holding (itself or nested) an Option.auto member with >= 1 transformation, AND the same
+# oracle clause no longer fails when every such member is replaced by the untransformed Option.auto(...).
+
+def _c11():
+    from props import c11
+    return c11
+
+
+def ns_sub(ns, attrs):
+    for a in attrs:
+        spec = dict(ns["members"]).get(a)
+        if spec is None or spec[0] != "ns":
+            return None
+        ns = spec[1]
+    return ns
+
+
+def ns_has_transformed(ns):
+    return any((spec[0] == "auto" and spec[2]) or (spec[0] == "ns" and ns_has_transformed(spec[1])) for _, spec in ns["members"])
+
+
+def ns_untransformed(ns):
+    ms = []
+    for attr, spec in ns["members"]:
+        if spec[0] == "auto":
+            spec = ("auto", spec[1], [], spec[3])
+        elif spec[0] == "ns":
+            spec = ("ns", ns_untransformed(spec[1]))
+        ms.append((attr, spec))
+    return dict(ns, members=ms)
+
+
+def ns_quad10(nscn, attrs, o, first):
+    """validate / keys / explain / evaluate of one freshly built namespace object (after evaluate(first) when warm)"""
+    w, obj = _c11().ns_object(nscn, attrs)
+    off = isinstance(first, tuple)
+    q = {}
+    if first is not None:
+        q["first"] = ask_obj(w, obj, "evaluate", core.py_json(first[1] if off else first))
+    po = core.py_json(o)
+    for m in METHODS:
+        q[m] = ask_obj(w, obj, m, po, off=off)
+    return q
+
+
+def ns_target_expr(nscn, attrs):
+    return dict(_c11().ns_targets(nscn["ns"], (nscn["ns"]["name"],)))[tuple(attrs)]
+
+
+def in_zone_ns1(nscn, attrs, o, first, kind):
+    sub = ns_sub(nscn["ns"], attrs)
+    if sub is None or not ns_has_transformed(sub):
+        return False
+    plain = dict(nscn, ns=ns_untransformed(nscn["ns"]))
+    eff = _c11().ns_eff(plain, ns_target_expr(plain, attrs))
+    return not any(k == kind for k, _, _ in oracle_c10(eff, 0, o, ns_quad10(plain, attrs, o, first), first))
+
+
+def namespace_failures(nscn, attrs, o, first):
+    """-> ([(kind, detail, finding)] failures only the namespace shows, failures its options show too, quadruple)"""
+    eff = _c11().ns_eff(nscn, ns_target_expr(nscn, attrs))
+    q = ns_quad10(nscn, attrs, o, first)
+    fails = oracle_c10(eff, 0, o, q, first)
+    if not fails:
+        return [], [], q
+    lk = {}
+    for kind, detail, cands in oracle_c10(eff, 0, o, quad(eff, 0, o, first), first):
+        lk.setdefault(kind, (detail, cands))
+    own = [(k, d, "NS1" if in_zone_ns1(nscn, attrs, o, first, k) else None) for k, d, c in fails if k not in lk]
+    shared = [(eff, 0, o, first, k) + lk[k] for k in {k for k, d, c in fails if k in lk}]
+    return own, shared, q
+
+
+def namespace_stream10(ctx, n):
+    rng = ctx.rng
+    c11 = _c11()
+    raw, viol, checks, dist, tagged = [], [], 0, {}, 0
+    for _ in range(n):
+        nscn, full, keys, bounded = c11.namespace_scenario(rng)
+        pool = [full, {}]
+        for k in keys:
+            o = deep_copy(full)
+            del_key(o, k)
+            pool.append(o)
+        for sec in {k[:-1] for k in keys if len(k) > 1}:
+            o = deep_copy(full)
+            del_key(o, sec)
+            pool.append(o)
+        o = deep_copy(full)
+        set_key(o, K(nscn["ns"]["name"], 31), 1)
+        pool.append(o)
+        targets = c11.ns_targets(nscn["ns"], (nscn["ns"]["name"],))
+        spaces = [t for t in targets if t[1][0] == "list"]
+        leafs = [t for t in targets if t[1][0] != "list"]
+        for attrs, expr in spaces + rng.sample(leafs, min(2, len(leafs))):
+            for j, o in enumerate(pool):
+                for first in (modes(pool, j) if j < 3 else [None]):
+                    own, shared, q = namespace_failures(nscn, attrs, o, first)
+                    checks += 1
+                    tag = ("namespace " if expr[0] == "list" else "member ") + "".join("1" if ok(q[m]) else "0" for m in METHODS)
+                    dist[tag] = dist.get(tag, 0) + 1
+                    raw += shared
+                    for kind, detail, finding in own:
+                        tagged += finding is not None
+                        viol.append(dict(desc="option namespace: " + DESC[kind], family="namespace", oracle=kind, mode=mode_name(o, first),
+                                         options=repr(o), first=None if first is None else repr(first), detail=detail, finding=finding,
+                                         asked=".".join(core.name_of(a) for a in attrs) or "<the namespace>", attrs=list(attrs),
+                                         observed={m: res_of(q[m]) for m in METHODS}, stands_for=repr(expr)[:600], scenario_repr=cp.dump_scn(nscn)))
+    return dict(raw=raw, violations=viol, checks=checks, patterns=dist, scenarios=n, tagged_NS1=tagged)
+
+
+def replay_namespace10(ctx, payload):
+    nscn = cp.load_scn(payload["scenario_repr"])
+    o = eval(payload["options"], {"S": S})
+    first = None if payload.get("first") is None else eval(payload["first"], {"S": S})
+    own, shared, q = namespace_failures(nscn, tuple(payload["attrs"]), o, first)
+    new = [(k, d) for k, d, f in own if f is None]
+    return bool(new), dict(oracle_failures=new, recorded_findings_on_this_input=[(k, f) for k, d, f in own if f], observed=q,
+                           failures_of_the_options_themselves=[(x[4], x[5]) for x in shared])
+
+
+def ns1_witness():
+    """the two recorded shapes of NS1, on the implementation -> (still fails, observations)"""
+    from labrea import Option
+    from labrea.exceptions import EvaluationError, KeyNotFoundError
+
+    def out(f):
+        try:
+            return ("ok", f())
+        except KeyNotFoundError as e:
+            return ("missing", e.key)
+        except EvaluationError as e:
+            return ("error", type(e.__cause__).__name__)
+    app = Option.namespace(type("APP", (), {"__annotations__": {"NAME": str}, "R": Option.auto() >> str.upper}))
+    only = Option.namespace(type("ONLY", (), {"R": Option.auto(default="x") >> str.upper}))
+    o1 = {"APP": {"NAME": "n"}}
+    c1 = [out(lambda: app.validate(o1)), out(lambda: app.keys(o1)), out(lambda: app.evaluate(o1))]
+    c2 = [out(lambda: only.validate({})), out(lambda: only.keys({})), out(lambda: only.evaluate({}))]
+    f1 = c1[0] == c1[1] == ("missing", "APP.R") and c1[2][0] == "ok"
+    f2 = c2[0][0] == c2[1][0] == "ok" and c2[2][0] == "error"
+    return f1 or f2, dict(case1=repr(c1), case2=repr(c2))
+
+
+NS1_WHAT = ("@Option.namespace class APP: NAME: str; R = Option.auto() >> str.upper on {'APP': {'NAME': 'n'}}: validate() and keys() raise "
+            "KeyNotFoundError('APP.R') while evaluate() returns {'NAME': 'n'}; class ONLY: R = Option.auto(default='x') >> str.upper on {}: "
+            "validate() and keys() pass, evaluate() raises EvaluationError from KeyError('ONLY')")
+
+
+# ----------------------------------------------------------------------------- graphs changed after they were asked
+#
+# history = dict(scn, steps): scn declares datasets 1 (P: a dispatch and one overload), 2 and 3 (siblings derived
+# from P with with_options / with_default_options: they share P's overload table), 4 (depends on one of them),
+# 5 and 6 (implementations registered late); the asked objects are datasets 1-4 plus every dataset derived
+# later.  steps: ("ask",) asks every object under every dictionary of `dicts` (None: explain() without an
+# argument, validate / keys under {}), or a public mutator applied to object t:
+#   ("register", t, [alias...], impl)  ("overload", t, [alias...], impl: a dataset)  ("set_dispatch", t, expr)
+#   ("add_effects" | "add_effect", t, [expr])  ("disable_effects" | "enable_effects", t)  ("set_cache", t, "mem" | "none")
+#   ("with_options" | "with_default_options", t, preset)      (the new dataset is asked from then on)
+# Whatever the history, the answers an object gives at one moment must satisfy the property among themselves.
+
+HOWS = ("with_options", "with_default_options")
+
+
+def mutation_history(rng):
+    keys = [K(11), K(12), K(20, 21), K(20, 22)]
+    ka, kb, kc = rng.sample(keys, 3)
+    v1, v2, v3 = rng.sample([1, 2, lit("a"), lit("b")], 3)
+    r = rng.random()
+    disp = None if r < 0.12 else (opt(K(10)) if r < 0.45 else opt(K(10), val(rng.choice([v1, v2, v2]))))
+    p = dict(fid=100, kwargs=[opt(ka)])
+    if disp is not None:
+        p.update(dispatch=disp, overloads=[(("j", v1), val(0))])
+    dep = ("dataset", rng.choice([1, 2, 2, 3]))
+    env = {1: p,
+           2: dict(derived=1, how=rng.choice(HOWS), preset={10: rng.choice([v1, v2, v2])}),
+           3: dict(derived=1, how=rng.choice(HOWS), preset=rng.choice([{10: v2}, {10: v3}, {12: 1}])),
+           4: dict(fid=101, kwargs=[dep if rng.random() < 0.6 else ("call", 106, [dep])]),
+           5: dict(fid=102, kwargs=[opt(kb)]),
+           6: dict(fid=103, kwargs=[opt(kc), opt(kb, val(1))])}
+    scn = dict(ftable={f: ("tag",) for f in range(100, 108)}, env=env, exprs=[("dataset", i) for i in (1, 2, 3, 4)], ops=[])
+    nobj = 4
+    steps = [("ask",)]
+    for _ in range(rng.randint(1, 3)):
+        t = rng.choice([0, 0, 1, 1, 2] + list(range(3, nobj)))
+        r = rng.random()
+        if r < 0.5:
+            alias = [rng.choice([v1, v2, v2, v3])] if rng.random() < 0.8 else [v2, v3]
+            if rng.random() < 0.3:
+                steps.append(("overload", t, alias, ("dataset", rng.choice([5, 6]))))
+            else:
+                steps.append(("register", t, alias, rng.choice([opt(kb), ("call", 104, [opt(kb)]), ("dataset", 5), ("dataset", 6), val(7)])))
+        elif r < 0.62:
+            steps.append(("set_dispatch", t, rng.choice([opt(K(10)), opt(K(10), val(v2)), opt(kc), opt(kc, val(v2)), val(v2)])))
+        elif r < 0.70:
+            steps.append((rng.choice(["add_effects", "add_effect"]), t, [("pstep", 105, [])]))
+        elif r < 0.76:
+            steps.append((rng.choice(["disable_effects", "enable_effects"]), t))
+        elif r < 0.82:
+            steps.append(("set_cache", t, rng.choice(["mem", "none"])))
+        else:
+            steps.append((rng.choice(HOWS), t, rng.choice([{10: v2}, {10: v1}, {10: v3}, {12: 1}])))
+            nobj += 1
+        steps.append(("ask",))
+    sc = lambda: rng.choice([0, 1, 2, 5, lit("a")])  # noqa
+    dicts = [{}, None, {10: v2}, {10: v1}]
+    for present in ([ka], [kb], [ka, kb], [ka, kb, kc]):
+        o = {10: rng.choice([v1, v2, v2, v3])} if rng.random() < 0.7 else {}
+        for k in present:
+            set_key(o, k, sc())
+        dicts.append(o)
+    return dict(scn=scn, steps=steps, dicts=dicts)
+
+
+def run_history(hist, methods):
+    """-> [(step index, object index, dictionary index, q)] for every ask; a mutator that raises is skipped"""
+    from labrea.cache import MemoryCache, NoCache
+    scn = hist["scn"]
+    _, objs, w, b = core.run_impl(dict(scn, ops=[]), want_objects=True)
+    objs = list(objs)
+    out = []
+    for si, st in enumerate(hist["steps"]):
+        k = st[0]
+        try:
+            if k == "ask":
+                for oi, obj in enumerate(objs):
+                    for di, o in enumerate(hist["dicts"]):
+                        po = None if o is None else core.py_json(o)
+                        q = {m: ask_obj(w, obj, m, po if (m == "explain" or po is not None) else {}) for m in methods}
+                        out.append((si, oi, di, q))
+            elif k == "register":
+                for a in st[2]:
+                    objs[st[1]].register(core.py_value(("j", a)), b.build(st[3]))
+            elif k == "overload":
+                objs[st[1]].overload([core.py_value(("j", a)) for a in st[2]] if len(st[2]) > 1 else core.py_value(("j", st[2][0])))(b.build(st[3]))
+            elif k == "set_dispatch":
+                objs[st[1]].set_dispatch(b.build(st[2]))
+            elif k in ("add_effects", "add_effect"):
+                getattr(objs[st[1]], k)(*[b.build(e) for e in st[2]])
+            elif k in ("disable_effects", "enable_effects"):
+                getattr(objs[st[1]], k)()
+            elif k == "set_cache":
+                objs[st[1]].set_cache(MemoryCache() if st[2] == "mem" else NoCache)
+            else:
+                objs.append(getattr(objs[st[1]], k)(core.py_json(st[2])))
+        except (ValueError, TypeError):
+            if k == "ask":
+                raise
+    return out
+
+
+def history_after(hist):
+    """the scenario the history has built, when it is known without modelling the mutators: every mutator of the
+    history is register / overload on P or one of its siblings (one shared table: appended to P's overloads)"""
+    env = dict(hist["scn"]["env"])
+    if env[1].get("dispatch") is None:
+        return None
+    extra = []
+    for st in hist["steps"]:
+        if st[0] == "ask":
+            continue
+        if st[0] not in ("register", "overload") or st[1] > 2:
+            return None
+        extra += [(("j", a), st[3]) for a in st[2]]
+    env[1] = dict(env[1], overloads=list(env[1]["overloads"]) + extra)
+    return dict(hist["scn"], env=env)
+
+
+def history_oracle(q, o, oracle):
+    """the relational clauses of the property on one moment's answers (no syntax tree: 'bodies' is not asked)"""
+    full = dict({m: "ok:?|" for m in METHODS}, **q)
+    return [(k, d) for k, d, c in oracle(SYNTAX_FREE, 0, {} if o is None else o, full, None) if k != "bodies"]
+
+
+def history_stream(ctx, pid, n, oracle, desc, methods):
+    """-> dict(violations, checks, ops, mismatches, mutators)"""
+    rng = ctx.rng
+    viol, checks, items, used = [], 0, [], {}
+    for _ in range(n):
+        hist = mutation_history(rng)
+        for st in hist["steps"]:
+            if st[0] != "ask":
+                used[st[0]] = used.get(st[0], 0) + 1
+        asks = run_history(hist, methods)
+        seen = set()
+        for si, oi, di, q in asks:
+            checks += 1
+            for kind, detail in history_oracle(q, hist["dicts"][di], oracle):
+                if (kind, oi) in seen:
+                    continue
+                seen.add((kind, oi))
+                viol.append(dict(desc="after a history of public mutators: " + desc[kind], family="history", oracle=kind, finding=None,
+                                 at=dict(step=si, object=oi, options=repr(hist["dicts"][di]), steps_so_far=[repr(s) for s in hist["steps"][:si]]),
+                                 detail=detail, observed={m: res_of(q[m]) for m in methods}, history=cp.dump_scn(hist)))
+        after = history_after(hist)
+        if after is not None and "evaluate" not in methods:      # nothing was evaluated: every answer is that of a cold graph
+            last = max(si for si, _, _, _ in asks)
+            sel = [(oi, di, q) for si, oi, di, q in asks if si == last and oi < 4]
+            ops = [(m, oi, False, False, hist["dicts"][di] or {}) for oi, di, q in sel for m in methods]
+            il = [q[m] for oi, di, q in sel for m in methods]
+            items.append((il, dict(after, ops=ops), cp.dump_scn(hist)))
+    nops, mism = live_correspondence(ctx, f"Histories_{pid}", items, "answers after late register/overload vs Model/Eval.v on the graph with the overloads declared up front")
+    return dict(violations=viol, checks=checks, ops=nops, mismatches=mism, mutators=used, histories=n)
+
+
+def replay_history(ctx, payload, oracle, methods):
+    hist = cp.load_scn(payload["history"])
+    fails = []
+    for si, oi, di, q in run_history(hist, methods):
+        for kind, detail in history_oracle(q, hist["dicts"][di], oracle):
+            fails.append(dict(step=si, object=oi, options=repr(hist["dicts"][di]), oracle=kind, detail=detail))
+    return bool(fails), dict(oracle_failures=fails[:6], steps=[repr(s) for s in hist["steps"]])
+
+
 def run(ctx):
     n = 1200 if ctx.quick else 12000
     corpus = corpus_for(PID)
     cases = [(dict(s, ops=[]), ([op[4] for op in s["ops"]][:3] or [{}])) for _, s in corpus] + generate(ctx, n)
     hist = [s for _, s in corpus] + [history(ctx, scn, pool) for scn, pool in cases[len(corpus):]]
     impls, models, mism, stats = cp.correspondence(ctx, hist, "Cases_C10")
-    violations, checks, distinct, dist, tagged = run_oracles(ctx, PID, cases, oracle_c10, DESC, 3 if ctx.quick else 4)
+    cl = class_stream(ctx, PID, 100 if ctx.quick else 1000, oracle_c10, DESC)
+    hs = history_stream(ctx, PID, 60 if ctx.quick else 600, oracle_c10, DESC, METHODS)
+    nsp = namespace_stream10(ctx, 30 if ctx.quick else 400)
+    violations, checks, distinct, dist, tagged = run_oracles(ctx, PID, cases, oracle_c10, DESC, 3 if ctx.quick else 4, extra=cl["raw"] + nsp["raw"])
+    ns_new = [v for v in nsp["violations"] if v["finding"] is None]
+    violations += cl["violations"][:25] + hs["violations"][:25] + ns_new[:25] + [v for v in nsp["violations"] if v["finding"]][:25]
+    if nsp["tagged_NS1"]:
+        tagged["NS1"] = nsp["tagged_NS1"]
+    mism = mism + cl["mismatches"] + hs["mismatches"]
     known = [dict(id=fid, still_fails=witness_fails(WIT[fid], oracle_c10), what=WIT[fid]["what"]) for fid in KNOWN]
+    ns1_fails, ns1_obs = ns1_witness()
+    known.append(dict(id="NS1", still_fails=ns1_fails, what=NS1_WHAT, observed=ns1_obs))
     sample = []
     for scn, pool in cases[-3:]:
         q = quad_cold(scn, 0, pool[0])
         sample.append(dict(expr=repr(scn["exprs"][0])[:300], options=repr(pool[0])[:160], observed={m: q[m][:80] for m in METHODS}))
     return {
-        "evaluations": stats["ops"] + 4 * checks,
+        "evaluations": stats["ops"] + 4 * checks + 4 * cl["checks"] + cl["ops"] + 4 * hs["checks"] + 4 * nsp["checks"],
         "distinct_nontrivial": len(distinct),
         "rule": "C01 profile (random expression graphs: datasets with overloads/pre-set/default options/callbacks/effects, options with defaults, "
                 "domains and templated values, apply, bind, switch, case, coalesce, collections, Map, Template, WithOptions, cached); every third "
                 "scenario declares partial bodies. For every (expression, dictionary of an adversarially perturbed pool): validate/keys/explain/"
                 "evaluate each on a freshly built graph (cold), on one graph after evaluate of the same dictionary (warm) and after evaluate of a "
-                "neighbouring dictionary (warm-other), and warmed then asked inside labrea.cache.disabled(). Non-trivial = the four methods do not all succeed nor all fail; distinct by hash of "
+                "neighbouring dictionary (warm-other), and warmed then asked inside labrea.cache.disabled(). Dataset classes (chains of plain / "
+                "@datasetclass / bare-subclass levels, a mixin, annotated / unannotated / raw-constant / re-declared members; dictionaries lacking each "
+                "leaf key in turn): the same oracle on the class, and the class against the model on the collection of its effective members. "
+                "Histories of public mutators (register / overload / set_dispatch / add_effects / add_effect / disable_effects / enable_effects / "
+                "set_cache / with_options / with_default_options on a dataset, its parent, a sibling sharing the overload table, a dependency), "
+                "every object asked under every dictionary (the empty one too) after every step (oracle only). Option namespaces (generator of props/c11.py: "
+                "bare / named / nested, annotated / default / evaluatable-default / Option(KEY) / Option.auto with >> transformations and domains): the "
+                "namespace, nested namespaces and members by attribute access under the sufficient dictionary and its neighbours, cold and warm (oracle "
+                "only; failures caused by transformed Option.auto members are the recorded finding NS1, decided by removing the transformations). Non-trivial = the four methods do not all succeed nor all fail; distinct by hash of "
                 "(expression, dictionary, first dictionary). Correspondence: histories ask-evaluate-ask on one long-lived graph.",
         "samples": sample,
-        "traces_validated_against_impl": stats["ops"],
+        "traces_validated_against_impl": stats["ops"] + cl["ops"],
         "correspondence_mismatches": mism[:5],
         "violations": violations,
         "known": known,
         "distribution": dict(stats, quadruples=checks, outcome_patterns_validate_keys_explain_evaluate=dist, oracle_failures_tagged=tagged,
-                             scenarios=len(cases)),
+                             scenarios=len(cases),
+                             dataset_classes=dict(scenarios=cl["scenarios"], quadruples=cl["checks"], ops_vs_model=cl["ops"], patterns=cl["patterns"]),
+                             mutator_histories=dict(histories=hs["histories"], moments_asked=hs["checks"], mutators=hs["mutators"]),
+                             namespaces=dict(scenarios=nsp["scenarios"], quadruples=nsp["checks"], patterns=nsp["patterns"], attributed_to_NS1=nsp["tagged_NS1"])),
         "exhaustive": False,
         "assumptions": ["user code is deterministic; 'bodies total' is read off the scenario (no reachable function is declared partial, no reachable bind function is partial) and "
                         "'values in their domains' off the observations (no domain / user failure among the three methods)",
                         "a failure is a missing-option failure when the deepest classified exception of the __cause__ chain is KeyNotFoundError",
                         "the theorems are about the cache-free reference instance; cold/warm caches are covered by this run only (PARTIAL)"],
-        "trusted_base": ["chooser positions are recomputed from the scenario syntax tree by this module (children/chooser_fids), independently of the model"],
+        "trusted_base": ["chooser positions are recomputed from the scenario syntax tree by this module (children/chooser_fids), independently of the model",
+                         "what a dataset class stands for (most derived declaration per name, mixin last in the MRO, '__' names excluded, dir() order) is computed "
+                         "by this module from the scenario; the model runs the collection of those members (it has no classes)"],
     }
 
 
@@ -655,6 +1240,12 @@ def replay_verdict(fails, agrees):
 
 
 def replay(ctx, payload):
+    if payload.get("family") == "class":
+        return replay_class(ctx, payload, oracle_c10)
+    if payload.get("family") == "history":
+        return replay_history(ctx, payload, oracle_c10, METHODS)
+    if payload.get("family") == "namespace":
+        return replay_namespace10(ctx, payload)
     scn = cp.load_scn(payload["scenario_repr"])
     i = payload["expr_index"]
     o = eval(payload["options"], {"S": S})
